@@ -162,7 +162,7 @@ def check_files(case, ctx):
             else:
                 m = math.fsum(o - f for o, f in cs) / len(cs)
                 e = math.sqrt(math.fsum((o - f - m) ** 2 for o, f in cs) / len(cs))
-            if not cmpx.close(ga[i], e if math.isnan(e) else cmpx.fmt_sig(e, 6), 2e-6):
+            if not cmpx.printed_ok(ga[i], e, 6, rel=2e-6):
                 ctx.fail("C14/values-csv/" + case["metric"], case, "row %d input %d: %r, model %r" % (k, i, ga[i], e))
 
 
